@@ -4,3 +4,5 @@ pub mod c16;
 pub mod c09;
 pub mod c10;
 pub mod c18;
+pub mod c05;
+pub mod c06;
